@@ -35,7 +35,10 @@ def _fam(t):
         _e("c11_hdr_auth_nocache", "request with Authorization; reply 'Cache-Control: no-cache' " + f("b b", "b b b") + _h, ("auth-not-shared", "auth-no-cache-exception-stored")),
         _e("c11_hdr_auth_smaxage", "request with Authorization; reply 'Cache-Control: " + f("s-maxage' b b", "' b '-maxage' b b") + _h, ("auth-not-shared", "auth-stored")),
     ]
+import os as _os
 SPEC = dict(
+    # C11_SHOW=1 re-admits the KNOWN-FINDING candidate class (VT/FF list items) to show its counterexample
+    defines=(["C11_SHOW=1"] if _os.environ.get("C11_SHOW") else []),
     harness="C11_nostore.cc", units=_U, unit_flags={"compat/xstring.cc": ["-Dxstrdup=vf_unused_squid_xstrdup"]},
     native_units=["src/sbuf/Algorithms.cc"],
     scope="kernel",
